@@ -24,9 +24,9 @@ RULE = (
 EXHAUSTIVE = {"quick": True, "thorough": True}
 EXHAUSTIVE_PART = "workload B: all failure points of each listed layout (quick 2 layouts, thorough 12)"
 TOLERANCES = {"recomputed_rel": 1e-9}
-FLOORS = {"quick": {"A.load-vs-model": 100, "A.listing": 15, "A.history": 30, "A.history-by-location": 15, "A.merge": 15, "A.split": 12, "A.rewrite-refused": 15,
+FLOORS = {"quick": {"A.load-vs-model": 100, "A.listing": 15, "A.history": 30, "A.history-by-location": 15, "A.merge": 15, "A.split": 12, "A.rewrite-refused": 15, "A.identity.fresh-object": 10, "A.history.step-before-object-existed": 10,
                     "B.run-with-failure": 40, "B.run-complete": 2, "B.snapshot-compared": 100, "hook:Database.writeToDB": 200},
-          "thorough": {"A.load-vs-model": 1500, "A.listing": 200, "A.history": 400, "A.history-by-location": 200, "A.merge": 200, "A.split": 150, "A.rewrite-refused": 200,
+          "thorough": {"A.load-vs-model": 1500, "A.listing": 200, "A.history": 400, "A.history-by-location": 200, "A.merge": 200, "A.split": 150, "A.rewrite-refused": 200, "A.identity.fresh-object": 150, "A.history.step-before-object-existed": 100,
                        "B.run-with-failure": 250, "B.run-complete": 12, "B.snapshot-compared": 1200, "hook:Database.writeToDB": 3000}}
 TIMEOUT = {"quick": 900, "thorough": 7200}
 
@@ -153,10 +153,28 @@ def history_case(rec, rng, nevents, case):
     PARAMS_A = ["chargeTime", "multiplicity"] if False else ["chargeTime"]
     counter = [0]
 
+    # identity: a serial number recorded in this database belongs to one logical object for ever
+    owners = {int(o.p.serialNum): id(o) for a_ in r.core for o in [a_] + list(a_)}
+
     def mutate():
-        k = rng.choice(["block-param", "block-param", "assembly-param", "core-param", "ndens", "swap"])
+        k = rng.choice(["block-param", "block-param", "assembly-param", "core-param", "ndens", "swap", "new-assembly"])
         counter[0] += 1
-        if k == "block-param":
+        if k == "new-assembly":
+            # refuelling: a fresh assembly of the same design replaces one in the core (the old one is purged)
+            old = rng.choice(list(r.core))
+            new = r.blueprints.constructAssem(cs, name=old.getType())
+            loc = old.spatialLocator
+            r.core.removeAssembly(old, discharge=False)
+            r.core.add(new, loc)
+            rec.hit("A.identity.fresh-object")
+            for o in [new] + list(new):
+                ser = int(o.p.serialNum)
+                if ser in owners and owners[ser] != id(o):
+                    rec.violation("A/identity/fresh-object-reuses-recorded-serial-number",
+                                  "a freshly built %s got serial number %d, which another object of this run (already written to the database) holds: histories are matched on it" % (type(o).__name__, ser), w)
+                    break
+                owners[ser] = id(o)
+        elif k == "block-param":
             for b in rng.sample(r.core.getBlocks(), max(1, len(r.core.getBlocks()) // 2)):
                 b.p[rng.choice(PARAMS_B)] = float(counter[0]) + rng.random()
         elif k == "assembly-param":
@@ -257,6 +275,13 @@ def history_case(rec, rng, nevents, case):
                                     continue
                             else:
                                 ser = int(comp.p.serialNum)
+                            if (tname, ser) not in values[st]:
+                                # the object did not exist when that step was written (fresh assembly): its history has no such step
+                                rec.hit("A.history.step-before-object-existed")
+                                if st in got and st != now:
+                                    rec.violation("A/history-includes-step-before-object-existed", "history of %s(serial %d).%s has a value %r for step %s, written before the object was created" % (tname, ser, p, got[st], st), dict(w, steps=steps))
+                                    break
+                                continue
                             exp = values[st].get((tname, ser), {}).get(p)
                             if st not in got:
                                 rec.violation("A/history-missing-step/%s" % ("by-location" if byloc else "by-identity"), "history of %s.%s lacks step %s (has %s)" % (tname, p, st, list(got)), dict(w, steps=steps))
